@@ -148,7 +148,7 @@ def spec(act, ctl, a, m, tr):
     inner_m = 1 if use_guard else m
     hooks = ctl != 'normal'
     con = Contract(comb_requires(), R('g_h == %s && g_n_start == 0 && g_n_success == 0 && g_n_failure == 0 && g_n_unwind == 0 && g_n_apply == 0 && g_rule_threw == 0' % ('H_IDLE' if hooks else 'H_STARTED'), 'attempt-pre'),
-                   Clause('assigns', 'IT_FIELDS(in), g_turn, g_pos, g_done, g_iter, g_last, g_called, g_ok, g_len, g_ncalls, vf_exc, vf_exc_counter, g_exc_obj, g_exc_type, '
+                   Clause('assigns', 'IT_FIELDS(in), g_turn, g_pos, g_done, g_iter, g_last, g_called, g_ok, g_len, g_ncalls, g_ae, g_re, g_lp, vf_exc, vf_exc_counter, g_exc_obj, g_exc_type, '
                                      'g_h, g_rule_threw, g_n_start, g_n_success, g_n_failure, g_n_unwind, g_n_apply, g_ab_off, g_ae_off, g_hook_off' + (', g_ab_byte, g_ab_line, g_ab_col' if tr == 'eager' else '')))
     for c in comb_common(m, props_rewind=('C02', 'C04')):
         con.add(c)
